@@ -60,6 +60,8 @@ def make_invocation(rng, world, with_faults):
         e = rng.choice([x for x in pool if x["family"] != "broken"])
     inp = e["pref"] if (e["pref"] and rng.random() < 0.8) else rng.choice(listings + binaries)
     binary = inp in binaries
+    if rng.random() < 0.03:
+        inp = rng.choice(["", "-", " "])  # odd values: nothing any route can read; the library fails, so must the command
     if rng.random() < 0.05:
         binary = not binary  # the wrong flag for this file: the library fails, so must the command
     all_matches = rng.random() < 0.5
